@@ -744,7 +744,8 @@ static inline SyntaxKind recognize8(const char* s, const ParseOptions& opts)
                     if (s[4] == '1') {
                         if (s[5] == '6') {
                             if (s[6] == '_') {
-                                if (s[7] == 't') {
+                                if (s[7] == 't'
+                                        && opts.languageExtensions().isEnabled_extC_char16_t_Keyword()) {
                                     return SyntaxKind::Keyword_Ext_char16_t;
                                 }
                             }
@@ -752,7 +753,8 @@ static inline SyntaxKind recognize8(const char* s, const ParseOptions& opts)
                     } else if (s[4] == '3') {
                         if (s[5] == '2') {
                             if (s[6] == '_') {
-                                if (s[7] == 't') {
+                                if (s[7] == 't'
+                                        && opts.languageExtensions().isEnabled_extC_char32_t_Keyword()) {
                                     return SyntaxKind::Keyword_Ext_char32_t;
                                 }
                             }
